@@ -618,10 +618,82 @@ def reg_run(ctx):
     return v, M.read_trace(trace)
 
 
-def eng_prop(pid, fams, extra=(), nq=60, nt=900, race=False, reg=False):
+# ---- Construct.tla: the constructor window of one session (steps of onOpen / Handshake x the peer's packets x its connection failing)
+CONS_INV = "TypeOK C09_NoCrash C03_Forward C03_OneClose C03_HandedLive C06_OneConnection C04_Final C04_NoUnderflow"
+CONS_DEVS = [("OpenStoresBlindly", "C03_Forward"), ("OpenStoresBlindly", "C03_OneClose"), ("OpenStoresBlindly", "C03_HandedLive"),
+             ("RefreshUnset", "C09_NoCrash"), ("NoRecheck", "C04_Final")]
+
+
+def cons_cfg(kind, rev, maxcli, inv=CONS_INV, dev="{}", view=True):
+    return ("SPECIFICATION Spec\nCONSTANTS Kind = \"%s\" Rev = %d MaxCli = %d Deviations = %s\n%sINVARIANTS %s\n%sCHECK_DEADLOCK FALSE\n"
+            % (kind, rev, maxcli, dev, "VIEW view\n" if view else "", inv, "PROPERTY C03_ForwardStep\n" if inv == CONS_INV else ""))
+
+
+def cons_run(ctx):
+    """model-check Construct.tla (every kind and revision), check that each deviation - the code as it was before fix 43d683c / 1522b69
+    - violates its invariant, replay every transition of the stream instances into the real server with the visible part of the
+    state compared after every step, judge the traces with EioMon."""
+    q = ctx.quick
+    maxcli = 2 if q else 3
+    for kind in ("stream", "polling"):
+        for rev in (4, 3):
+            M.tlc_model(ctx, "Construct", cons_cfg(kind, rev, maxcli), "cons_%s_%d" % (kind, rev))
+    sens = {}
+    for dev, inv in CONS_DEVS:
+        for rev in (4, 3):
+            sens["%s/%s/rev%d" % (dev, inv, rev)] = M.tlc_expect_violation(
+                ctx, "Construct", cons_cfg("stream", rev, 2, inv=inv, dev='{"%s"}' % dev), "cons_dev_%s_%s_%d" % (dev, inv, rev), inv)
+    ctx.extra["constructor_deviations_detected"] = sens
+    if not all(sens.values()):
+        raise M.Inconclusive("Construct.tla is not sensitive to %s" % [k for k, v in sens.items() if not v])
+    behs = []
+    for rev in (4, 3):
+        d = M.tlc_dir(ctx, "g_cons%d" % rev)
+        M.write_cfg(d, "g", cons_cfg("stream", rev, 2, inv="TypeOK", view=False))
+        rc, out = M.sh(["tlc", "-workers", "4", "-metadir", os.path.join(d, "meta"), "-dump", "dot,actionlabels", os.path.join(d, "graph"),
+                        "-config", "g.cfg", "Construct.tla"], cwd=d, timeout=900)
+        if rc == 124 or "Model checking completed. No error" not in out:
+            raise M.Inconclusive("state graph dump of Construct.tla failed (see %s)" % d)
+        outp = os.path.join(ctx.work, "cover_cons%d.json" % rev)
+        rc, o2 = M.sh([sys.executable, os.path.join(M.ROOT, "tools", "tcover.py"), os.path.join(d, "graph.dot"), outp, "45", "0", "construct"], timeout=900)
+        if rc != 0:
+            raise M.Inconclusive("tcover failed for Construct: %s" % o2[-500:])
+        info = json.loads(o2.strip().splitlines()[-1])
+        os.remove(os.path.join(d, "graph.dot"))
+        shutil.rmtree(os.path.join(d, "meta"), ignore_errors=True)
+        ctx.extra.setdefault("transition_cover", {})["constructor_rev%d" % rev] = info
+        ctx.states += info["states"]
+        ctx.transitions += info["transitions"]
+        bs = json.load(open(outp))
+        for b in bs:
+            if b:
+                b[0]["rev"] = rev
+        behs += bs
+    ctx.extra["behaviours_replayed"] = ctx.extra.get("behaviours_replayed", 0) + len(behs)
+    trace, summ = M.go_family(ctx, "cons", behaviours=behs, timeout=3000)
+    v, lines = M.tlc_trace(ctx, "EioMon", MON_EIO_CFG, "cons", trace, timeout=3000)
+    ctx.traces += summ.get("stats", {}).get("scenarios", 0)
+    ctx.events += lines
+    return v, M.read_trace(trace)
+
+
+@prop("XCONS")
+def xcons(ctx):
+    """development aid: ./check XCONS   - the Construct.tla pipeline alone"""
+    v, evs = cons_run(ctx)
+    M.classify(ctx, v)
+    ctx.assumptions = ENG_ASSUME
+    return M.finish(ctx, rule=ENG_RULE, evs=evs)
+
+
+def eng_prop(pid, fams, extra=(), nq=60, nt=900, race=False, reg=False, cons=False):
     @prop(pid)
     def f(ctx):
         evs = eng_run(ctx, fams, nq, nt, extra)
+        if cons:
+            v, cevs = cons_run(ctx)
+            M.classify(ctx, v)
+            evs = evs + cevs
         if reg:
             v, revs = reg_run(ctx)
             M.classify(ctx, v)
@@ -635,8 +707,8 @@ def eng_prop(pid, fams, extra=(), nq=60, nt=900, race=False, reg=False):
 
 eng_prop("C01", ["flow", "upg"], extra=("direct",), race=True)
 eng_prop("C02", ["flow", "poll", "dreq"], extra=("direct",))
-eng_prop("C03", ["life"], extra=("direct",), nq=90, race=True, reg=True)
-eng_prop("C04", ["life"], nq=90, race=True, reg=True)
+eng_prop("C03", ["life"], extra=("direct",), nq=90, race=True, reg=True, cons=True)
+eng_prop("C04", ["life"], nq=90, race=True, reg=True, cons=True)
 BEAT_CFG = ("SPECIFICATION Spec\nCONSTANTS PI = %d PT = %d MaxNow = %d Delays = %s\n"
             "INVARIANTS NoMissedPing NoMissedTimeout TimeoutExact AnsweredNeverClosed PingSchedule\nCHECK_DEADLOCK FALSE\n")
 
@@ -866,13 +938,17 @@ HOST_CFG = ('SPECIFICATION Spec\nCONSTANTS Phases = {"fresh", "traffic", "upgrad
 def c09(ctx):
     M.tlc_model(ctx, "Hostile", HOST_CFG % "host", "hostile_table")
     evs = eng_run(ctx, [], 40, 600, ("host",))
+    # the constructor window (Construct.tla): heartbeat packets and connection failures at every step of onOpen / Handshake
+    v, cevs = cons_run(ctx)
+    M.classify(ctx, v)
+    evs = evs + cevs
     # coverage of the (class, revision, transport) cells by the hostile steps of this run
     seen = {(e["class"], e["proto"], e["kind"]) for e in evs if e["e"] == "hostile"}
     ctx.extra["hostile_cells_exercised"] = len(seen)
     ctx.extra["hostile_steps"] = sum(1 for e in evs if e["e"] == "hostile")
     ctx.assumptions = ENG_ASSUME + ["class-based generation with random concretisation; no coverage-guided byte-level fuzzing",
                                     "CPU budget per hostile step: 1.5 s + 20 ms per kilobyte received",
-                                    "WebTransport handshake garbage ('0null') is not driven at engine level"]
+                                    "heartbeat packets, wrong-direction packets and messages inside the constructor window (hswin_*), and every transition of Construct.tla replayed (cons)"]
     return M.finish(ctx, rule="one trace = a server with a canary session and 4-8 victim sessions, each hit in a random phase by one hostile input class "
                     "(23 classes x revisions x transports); after every hostile step the canary must complete a message round trip", evs=evs)
 
